@@ -70,7 +70,7 @@ func runC04(c *mon.Ctx) {
 			}
 			indiv := map[string]bool{}
 			for _, a := range g.Rec.Assertions {
-				if a.Sig != nil {
+				if a.Sig != nil && a.Sig.Key == g.Signer.Key && !a.Sig.BreakDigest && !a.Sig.BreakSig {
 					indiv[sim.DumpAssertion(a)] = true
 				}
 			}
@@ -110,6 +110,67 @@ func runC04(c *mon.Ctx) {
 			cs.Outcome("off:rejected")
 		}
 		cs.Sample(map[string]any{"on": fmt.Sprint(eOn), "off": fmt.Sprint(eOff)})
+	}
+
+	// a trusted Response signature over assertions whose OWN signature does not verify:
+	// the Response may be reported as validated, the assertions may not
+	nm := c.N(600, 30000)
+	for k := 0; k < nm; k++ {
+		cs := c.Begin("signed-response-over-unverified-assertion-signature", k)
+		if cs == nil {
+			continue
+		}
+		r := cs.Rand()
+		signer := pick(r, w.IdP)
+		rec := sim.GenuineResponse(w.Env, 1+r.IntN(2))
+		mode := pick(r, []string{"untrusted-key", "foreign-key-trusted-cert", "broken-digest", "broken-value", "trusted-good"})
+		for i, a := range rec.Assertions {
+			a.ID = sim.S(fmt.Sprintf("_a%d-%08x", i, r.Uint32()))
+			ac := pick(r, w.Atk)
+			switch mode {
+			case "untrusted-key":
+				a.Sig = sim.DefaultSig(ac.Key, ac)
+			case "foreign-key-trusted-cert":
+				a.Sig = sim.DefaultSig(ac.Key, signer)
+			case "broken-digest":
+				a.Sig = sim.DefaultSig(signer.Key, signer)
+				a.Sig.BreakDigest = true
+			case "broken-value":
+				a.Sig = sim.DefaultSig(signer.Key, signer)
+				a.Sig.BreakSig = true
+			case "trusted-good":
+				a.Sig = sim.DefaultSig(signer.Key, signer)
+			}
+		}
+		rec.Sig = randSigSpec(r, signer, true, false)
+		st := sim.RandomStyle(r)
+		st.TextTricks = 0
+		doc, err := sim.BuildResponse(rec, st)
+		if err != nil {
+			cs.Inconclusive("simulator-error")
+			continue
+		}
+		cs.Desc("mode=%s n=%d signer=%s", mode, len(rec.Assertions), signer.Key.Name)
+		cs.Input([]byte(doc))
+		sp, _, _ := NewSP(w.Now, signer)
+		resp, verr := sp.ValidateEncodedResponse(sim.Encode(doc, sim.RawLevel))
+		if verr != nil {
+			cs.Outcome("rejected")
+			cs.Violation("trusted-signed-response-rejected", "a Response with a valid trusted signature was rejected: %v", verr)
+			continue
+		}
+		cs.Nontrivial(fmt.Sprintf("%x", mon.Hash64(doc)))
+		cs.Outcome(fmt.Sprintf("accepted-respflag-%v", resp.SignatureValidated))
+		for i := range resp.Assertions {
+			if resp.Assertions[i].SignatureValidated && mode != "trusted-good" {
+				cs.Violation("assertion-flag-overstated", "assertion %d is marked validated although its own signature (%s) was never verified and would not verify", i, mode)
+				break
+			}
+		}
+		ai, aerr := sp.RetrieveAssertionInfo(sim.Encode(doc, sim.RawLevel))
+		if aerr == nil && ai.ResponseSignatureValidated != resp.SignatureValidated {
+			cs.Violation("summary-flag-differs", "AssertionInfo.ResponseSignatureValidated=%v but Response.SignatureValidated=%v", ai.ResponseSignatureValidated, resp.SignatureValidated)
+		}
 	}
 
 	nl := c.N(2500, 100000)
